@@ -150,13 +150,24 @@ theorem ctorRefused_commit {w : World} {c : Nat} (r : Res Unit) (tl : List Nat) 
   · simpa [commit, Conserves] using hc
   · rw [commit_objs]; simp only [objsAfter, erase_of_lookup_none hnone]
 
+/-- the one in-contract call that raises and HAS changed its receiver: `assign(List, non-empty Table / Tree)`.
+    `List_Assign` cleared the list — its old elements, and nothing else, were finalised (all of them when the list held
+    probe elements; for a List of Box the pointees not finalised before), nothing was constructed or assigned in place —,
+    then `get(obj, $I(0))` raised ValueError before anything was pushed: the list is empty, every other container is the
+    value it was. -/
+def ListClearedRefused (w : World) (op : Op) (res : World × Obs) : Prop :=
+  ∃ c d ek xs, op = .assign c d ∧ listCrossCleared w c d = true ∧ lookup w.objs c = some (.seq .list ek xs) ∧
+    res.2.out = .raised .valueError ∧ res.2.issued = [] ∧ res.2.updated = [] ∧
+    (∀ u ∈ res.2.retired, u ∈ xs) ∧ (ek = .probe → res.2.retired = xs) ∧
+    lookup res.1.objs c = some (.seq .list .probe []) ∧ ∀ e, e ≠ c → lookup res.1.objs e = lookup w.objs e
+
 /-- a refused in-contract operation constructs nothing, finalises nothing, assigns nothing and leaves every container
-    as it was — except that a refused insertion of a Box argument made (and the caller deleted) the pointee, and a refused
-    constructor finalised again what it had constructed -/
+    as it was — except that a refused insertion of a Box argument made (and the caller deleted) the pointee, a refused
+    constructor finalised again what it had constructed, and a List assigned from a non-empty Table / Tree was cleared -/
 theorem step_refused {w : World} (hpos : 0 < w.next) (op : Op) (hin : noKnownFinding w op = true)
     (hr : (step w op).2.out ≠ .ok) :
     Untouched w (step w op) ∨ (srcIsBox w op.target = true ∧ BoxArgRefused w (step w op)) ∨
-      (op.isTypedCtor = true ∧ CtorRefused w (step w op)) := by
+      (op.isTypedCtor = true ∧ CtorRefused w (step w op)) ∨ ListClearedRefused w op (step w op) := by
   cases op with
   | typed c t =>
     simp only [step] at hr ⊢
@@ -243,7 +254,7 @@ theorem step_refused {w : World} (hpos : 0 < w.next) (op : Op) (hin : noKnownFin
           | array => simp [noKnownFinding, typedAtomic, hng] at hin
           | list =>
             simp only [hfree, hng, if_false]
-            exact Or.inr <| Or.inr ⟨rfl, ctorRefused_commit _ _ hnone (cons_listNewRefused w.next args).1⟩
+            exact Or.inr <| Or.inr <| Or.inl ⟨rfl, ctorRefused_commit _ _ hnone (cons_listNewRefused w.next args).1⟩
     | newMap k args =>
       simp only [stepTyped] at hr ⊢
       split at hr
@@ -264,7 +275,7 @@ theorem step_refused {w : World} (hpos : 0 < w.next) (op : Op) (hin : noKnownFin
           | cons kv kvs ih => obtain ⟨a, b⟩ := kv; simp only [mapSetMany]
         · rename_i hng
           simp only [hfree, hng, if_false]
-          exact Or.inr <| Or.inr ⟨rfl, ctorRefused_commit _ _ hnone (cons_mapNewRefused k w.next args hpos).1⟩
+          exact Or.inr <| Or.inr <| Or.inl ⟨rfl, ctorRefused_commit _ _ hnone (cons_mapNewRefused k w.next args hpos).1⟩
   | new c k => simp only [step] at hr ⊢; split at hr <;> simp [badOp, commit] at hr
   | newSeq c k ps => simp only [step] at hr ⊢; split at hr <;> simp [badOp, commitSeq, commit, Res.unit] at hr
   | newMap c k kvs =>
@@ -344,12 +355,35 @@ theorem step_refused {w : World} (hpos : 0 < w.next) (op : Op) (hin : noKnownFin
       · simp [commitSeq, commit, Res.unit, seqAssignProbe] at hr
       · simp [commitSeq, commit, Res.unit, seqAssignBox] at hr
       · simp [commitMap, commit, Res.unit, mapAssign] at hr
-      · rename_i k ek xs _ src hl hd
-        exfalso; apply hr
-        have hsrc : src = [] := by
-          simp [noKnownFinding, srcIsBox, crossRefused, hl, hd, Cont.isBox, hcd] at hin; exact hin
-        subst hsrc
-        simp [commitSeq, commit, Res.unit, seqAssignFromMap]
+      · rename_i k ek xs mk src hl hd
+        cases k with
+        | array =>
+          exfalso; apply hr
+          have hsrc : src = [] := by
+            simp [noKnownFinding, srcIsBox, crossRefused, hl, hd, Cont.isBox, hcd] at hin; exact hin
+          subst hsrc
+          simp [commitSeq, commit, Res.unit, seqAssignFromMap]
+        | list =>
+          have hne : src.length ≠ 0 := by
+            intro h0; apply hr; simp [commitSeq, commit, Res.unit, seqAssignFromMap, h0]
+          have hne' : src ≠ [] := fun h => hne (by simp [h])
+          refine Or.inr <| Or.inr <| Or.inr ⟨c, d, ek, xs, rfl, ?_, hl, ?_, ?_, ?_, ?_, ?_, ?_, ?_⟩
+          · simp [listCrossCleared, hl, hd, hne']
+          · simp [hl, hd, hcd, commitSeq, commit, Res.unit, seqAssignFromMap, hne]
+          · simp [hl, hd, hcd, commitSeq, commit, Res.unit, seqAssignFromMap, hne]
+          · simp [hl, hd, hcd, commitSeq, commit, Res.unit, seqAssignFromMap, hne]
+          · intro u hu
+            simp only [hl, hd, hcd, if_false, commitSeq, commit, Res.unit, seqAssignFromMap, hne] at hu
+            split at hu
+            · exact (List.mem_filter.mp (mem_dedupIds hu)).1
+            · exact hu
+          · intro hek; subst hek
+            simp [hl, hd, hcd, commitSeq, commit, Res.unit, seqAssignFromMap, hne]
+          · simp only [hl, hd, hcd, if_false, commitSeq, commit_objs, seqAssignFromMap, hne]
+            exact lookup_objsAfter_self _ _ _
+          · intro e he
+            simp only [hl, hd, hcd, if_false, commitSeq]
+            exact commit_frame _ _ _ _ _ _ he
       · simp [badOp] at hr
   | copy c d =>
     simp only [step] at hr ⊢
